@@ -7,6 +7,7 @@ import GivaroModel.Model.PrimesFactor
 import GivaroModel.Model.PrimesMisc
 import GivaroModel.Model.PrimesContainers
 import GivaroModel.Model.PrimesMR
+import GivaroModel.Model.PrimesErat
 import GivaroModel.Spec.PrimesSpec
 -- @driver-mode primes Driver.Primes.primesLine
 namespace Driver.Primes
@@ -221,13 +222,17 @@ def primesLine (line : String) : String :=
           | _ => "BAD write | " ++ line
         | _ => "BAD write | " ++ line
       | "erat", [n], k :: rest =>
-        -- Erathostene(Lf, p): the distinct prime factors of |p| in increasing order (certificate; the sieve is not modelled)
+        -- Erathostene(Lf, p): the distinct prime factors of |p| in increasing order (certificate), and the sieve itself
+        -- (Model/PrimesErat.lean: marking loop, divisibility by "last multiple marked = n", walk over the unmarked odd numbers)
         let ps := rest.map Int.toNat
         if ps.length != k.toNat then "BAD erat | " ++ line else
-        if n == 0 then primesVerdict line ps.isEmpty true "-" else
+        if n.natAbs ≥ 1073741824 then "PRE" else
+        let m := erathostene n
+        let ms := String.intercalate " " (m.map hexNat)
+        if n == 0 then primesVerdict line ps.isEmpty (m == ps) ms else
         let cof := ps.foldl (fun m p => if p < 2 then m else stripAll p (Nat.log2 m + 1) m) n.natAbs
         let sorted := (ps.zip (ps.drop 1)).all (fun ab => decide (ab.1 < ab.2))
-        primesVerdict line (ps.all primeN && sorted && ps.all (fun p => n.natAbs % p == 0) && cof == 1) true "-"
+        primesVerdict line (ps.all primeN && sorted && ps.all (fun p => n.natAbs % p == 0) && cof == 1) (m == ps) ms
       | "divinto", [n, _m], k :: rest =>
         -- divisors(L, Lf, Le), divisors(L, n) and divisors(Lf, Lf, Le) on an output list that already holds the divisors of m and junk:
         -- the list left behind is that of the input alone (`divisorsInto old fs = divisors fs`)
@@ -285,7 +290,10 @@ def primesLine (line : String) : String :=
             else if n == 0 then newp.isEmpty
             else primesOk && (key2 != "eratinto" || sorted)
           let specOk := fin.take pre.length == pre && specNew
-          if key2 == "eratinto" || n.natAbs ≤ 1 then primesVerdict line specOk true "-" else
+          if key2 == "eratinto" then
+            let m := pre ++ erathostene n          -- push_back: the old entries stay in front
+            primesVerdict line specOk (m == fin) (String.intercalate " " (m.map hexNat)) else
+          if n.natAbs ≤ 1 then primesVerdict line specOk true "-" else
           let m := set1Into (fun x => match newp.find? (fun q => decide (2 ≤ q) && x % q == 0) with | some q => q | none => x) pre n
           primesVerdict line specOk (m == some fin) (match m with | some l => String.intercalate " " (l.map hexNat) | none => "fuel")
         | _ => "BAD into | " ++ line
